@@ -1,0 +1,34 @@
+/*
+ * Copyright (c) Meta Platforms, Inc. and affiliates.
+ *
+ * This source code is licensed under the MIT license found in the
+ * LICENSE file in the root directory of this source tree.
+ */
+
+// Observation points for external verification harnesses.  Compiled in only when
+// DISPENSO_VERIF is defined; otherwise every DISPENSO_VERIF_HOOK expands to nothing.
+// A harness that wants the events defines the (weak) function dispenso_verif_hook; when no
+// definition is linked the calls are skipped.  Hooks only report what the surrounding code
+// just did (or is about to do); they never change behavior.
+
+#pragma once
+
+#if defined(DISPENSO_VERIF)
+
+extern "C" void dispenso_verif_hook(const char* what, const void* obj, long a, long b)
+    __attribute__((weak));
+
+#define DISPENSO_VERIF_HOOK(what, obj, a, b)                                          \
+  do {                                                                                \
+    if (::dispenso_verif_hook) {                                                      \
+      ::dispenso_verif_hook(what, obj, (long)(a), (long)(b)); /* ints or pointers */ \
+    }                                                                                 \
+  } while (0)
+
+#else
+
+#define DISPENSO_VERIF_HOOK(what, obj, a, b) \
+  do {                                       \
+  } while (0)
+
+#endif // DISPENSO_VERIF
